@@ -139,7 +139,8 @@ EXCS = {"ValueError": ValueError, "RuntimeError": RuntimeError, "KeyError": KeyE
         "TypeError": TypeError}  # fmt: skip
 MALFORMED = ["userff-nonintegral", "userff-nonintegral", "empty", "garbage", "whitespace-only", "bad-number", "header-only", "unrepairable", "missing-input",
              "neutraln-amber", "ph-range", "no-ff", "assign-only-incomplete", "missing-userff", "userff-without-names",
-             "missing-ligand", "unknown-ff", "hetero-only"]  # fmt: skip
+             "missing-ligand", "unknown-ff", "hetero-only", "cif-bad-coordinate", "cif-unknown-coordinate", "cif-bad-resnum",
+             "cif-bad-coordinate"]  # fmt: skip
 
 
 @st.composite
@@ -158,6 +159,7 @@ def fail_case(draw):
             desc["chains"][0]["oxt"] = False  # so that repair_heavy runs
     else:
         c["what"] = MALFORMED[draw(st.integers(0, 10**9)) % len(MALFORMED)]
+        c["pick"] = draw(st.integers(0, 10**6))
     return c
 
 
@@ -197,6 +199,7 @@ def check_fail(case):
     opts = [f"--ff={ff}", *case["opts"]]
     must_fail = True
     in_name = None
+    in_file = "in.pdb"
     extra = {}
     if case["kind"] == "malformed":
         w = case["what"]
@@ -260,6 +263,35 @@ def check_fail(case):
             extra = {"bad.dat": "\n".join(rows) + "\n", "bad.names": (dat_dir / "AMBER.names").read_text()}
             opts = ["--userff=@DIR@/bad.dat", "--usernames=@DIR@/bad.names"]
             must_fail = hit
+        elif w.startswith("cif-"):
+            # mmCIF input with one atom_site row that cannot be read: the atom cannot be placed
+            from .. import cifgen
+
+            t = build.Structure()
+            t.records = [dict(x) for x in s.records]
+            nrec = len(t.records)
+            victim = case.get("pick", 7) % nrec
+            item, val = {"cif-bad-coordinate": ("Cartn_x", "12.3a4"), "cif-unknown-coordinate": ("Cartn_y", "?"),
+                         "cif-bad-resnum": ("auth_seq_id", "?")}[w]
+            # the victim row is written through the independent writer with a verbatim item value
+            ids = []
+            for x in t.records:
+                if x["chain"] not in ids:
+                    ids.append(x["chain"])
+            atoms = []
+            nmod = 2 if case["prefill"] and nrec % 2 else 1
+            for m in range(1, nmod + 1):
+                for k, x in enumerate(t.records):
+                    a = dict(rec=x["rec"], serial=k + 1, name=x["name"], alt=" ", resn=x["resn"], chain=x["chain"] if x["chain"].strip() else "Z",
+                             label_chain="ABCDEFGHIJ"[ids.index(x["chain"]) % 10], seq=x["seq"], icode=x.get("icode", " "), xyz=x["xyz"],
+                             occ=1.0, b=10.0, elem=x["name"].lstrip("0123456789")[0], charge="", model=m,
+                             label_seq=(x["group"][2] + 1) if x["group"][0] in ("chain", "na") else x["seq"])  # fmt: skip
+                    if k == victim and m == 1:
+                        a["raw"] = {item: val}
+                    atoms.append(a)
+            text = cifgen.cif_text(atoms)
+            in_file = "in.cif"
+            res.label(f"cif-models={nmod}")
         elif w == "hetero-only":
             text = "HETATM    1 ZN    ZN A   1       1.000   2.000   3.000  1.00  0.00          ZN\nEND\n"
     sentinel = "SENTINEL - must not be touched\n" if case["prefill"] else None
@@ -268,7 +300,7 @@ def check_fail(case):
     state, undo = (None, lambda: None)
     try:
         outp = os.path.join(d, "out.pqr")
-        inp = os.path.join(d, "in.pdb")
+        inp = os.path.join(d, in_file)
         if not (case["kind"] == "malformed" and case.get("what") == "missing-input"):
             with open(inp, "w") as fh:
                 fh.write(text)
